@@ -92,12 +92,17 @@ Advance(c0, trk, call, o) ==
 
 \* ---- C14 ---------------------------------------------------------------------------
 Declared(c, H) == IF Len(c.mem) >= H.sizeOff + 4 THEN U32At(c.mem, H.sizeOff) ELSE 0
+Distinct(ss) == \A i, j \in 1..Len(ss) : i # j => ss[i] # ss[j] /\ ss[i] # ""
 C14_Accept(c, trk, call, o) ==
   CASE call.op \in {"ref_from_slice", "ref_from_bytes"} ->      \* the latter: BytesRef::try_from, then ref_from_bytes on its result
          LET H == HeaderByName(call.h) IN AcceptRefFromSlice(H, Len(c.mem), Al(c), Declared(c, H), o)
     [] call.op = "bytes_ref" ->
          AcceptBytesRef(HeaderByName(call.h), Len(c.mem), Al(c), o)
     [] call.op = "round8" -> IsVal(o, U32Bytes(RoundUp8(LE4(call.n))) \o <<0, 0, 0, 0>>)
+    \* "rejected with the respective error": the errors stay distinguishable when rendered for a user (Display) - the
+    \* five memory errors among themselves, and as the two crates' load errors forward them next to their own
+    [] call.op = "err_texts" -> o.k = "texts" /\ Distinct(o.mem) /\ Len(o.mem) = 5 /\ Distinct(o.info) /\ Len(o.info) = 6
+                                /\ Distinct(o.hdr) /\ Len(o.hdr) = 7
     [] OTHER -> TRUE
 
 \* ---- C02 ---------------------------------------------------------------------------
@@ -762,6 +767,9 @@ DesignStep(c0, ds, call) ==
          [o |-> DesignRefFromSlice(H, Len(c.mem), Al(c), Declared(c, H)), ds |-> ds]
     [] call.op = "bytes_ref" ->
          [o |-> BytesRefSpec(HeaderByName(call.h), Len(c.mem), Al(c)), ds |-> ds]
+    [] call.op = "err_texts" ->      \* the design names each error after its variant
+         LET m == <<"Null", "WrongAlignment", "ShorterThanHeader", "MissingPadding", "InvalidReportedTotalSize">> IN
+         [o |-> [k |-> "texts", mem |-> m, info |-> m \o <<"NoEndTag">>, hdr |-> m \o <<"MagicNotFound", "ChecksumMismatch">>], ds |-> ds]
     [] call.op = "clone_ref" ->
          LET H == HeaderByName(call.h)  r == DesignRefFromSlice(H, Len(c.mem), Al(c), Declared(c, H)) IN
          [o |-> IF r.k # "ok" THEN r
